@@ -59,6 +59,9 @@ CHECKS = {
     "C10": ("exploration", "runtime monitoring: compiled MarkBasePos / MarkMarkPos / MarkLigPos + GDEF decoded from raw bytes and evaluated (with the variation store) at every master, compared with the source anchors in the manifest",
             "Generated sources with base, stacking-mark and ligature-component anchors under several names, varying per master, with explicit public.openTypeCategories are compiled; every (attaching glyph / component, mark) pair that shares an anchor name must be attached by a lookup reachable from mark/mkmk with anchors equal to the rounded source anchors at each master, nothing else may be attached, and source marks must be GDEF class 3.",
             "Classification is taken from explicit public.openTypeCategories (sources without them are not asserted); anchor propagation through composites is not generated for UFO sources.", "DESIGN.md §5 C10"),
+    "C11": ("exploration", "runtime monitoring: random feature programs compiled by fea_rs::Compiler in rlimited children, compiled GSUB/GPOS applied by an independent raw-bytes OTL interpreter, compared with a direct interpreter of the program's AST",
+            "Programs from a grammar over languagesystems, named classes, GDEF classes, standalone and nested named lookups, every lookupflag kind, single / multiple / alternate / ligature / chaining-contextual substitution (explicit lookups, inline single, inline ligature, ignore) and single / pair (glyph, enum, class) / contextual positioning, script and language statements (exclude_dflt) are compiled; every string of length <= 3 over the mentioned glyphs (+ random strings <= 6) is shaped under every registered language system and two unregistered ones, with all features on and each alone, and must come out exactly as the AST interpreter says (glyphs and accumulated value records).",
+            "Programs whose meaning the specification leaves open (duplicate keys in a lookup, overlapping pair classes, a lookup reference or no-op lookupflag between mergeable rules, a feature re-opened with script statements, a script statement naming the only system in force) are generated but not judged; aalt, size, cursive, mark-attachment positioning and useExtension are outside the grammar.", "DESIGN.md §5 C11"),
 }
 
 NOT_YET = {}
